@@ -172,6 +172,8 @@ SOLO_COMPOSITES = [
     L("untagged_str_obj", {"oneOf": [STR, obj({"a": INT}, ["a"])]}, enf=True),
     L("obj_array_type", {"type": ["object", "array"]}, ff=False),
     L("ext_units", {"oneOf": [{"type": "string", "enum": ["A"]}, {"type": "string", "enum": ["B", "C"]}]}, enf=True, strish=True),
+    L("int_units", {"oneOf": [obj({"kind": {"type": "string", "enum": ["idle"]}}, ["kind"]), obj({"kind": {"type": "string", "enum": ["running"]}}, ["kind"]),
+                              obj({"kind": {"type": "string", "enum": ["done"]}}, ["kind"])]}, enf=True),
     L("ext_const_units", {"oneOf": [{"type": "string", "const": "A"}, {"type": "string", "const": "B"}]}, ff=False, strish=True),
     L("int_tag_const", {"oneOf": [obj({"k": {"const": "a"}, "x": INT}, ["k", "x"]), obj({"k": {"const": "b"}}, ["k"])]}, ff=False),
     L("adj_closed", {"oneOf": [obj({"t": {"type": "string", "enum": ["A"]}, "x": INT}, ["t", "x"], additionalProperties=False),
